@@ -83,7 +83,12 @@ def nodata_vals(dtype, setting):
 
 def src_data(shape, dtype, ntime):
     n = shape[0] * shape[1]
-    base = (np.arange(n).reshape(shape) * 2 + 1).astype(dtype)  # odd values 1..2n-1 < 250: never nodata, never 0
+    # odd values 1..2n-1 < 250: never nodata, never 0; for 1-byte signed data keep them below 100 so that
+    # neither the ramp nor the +40 per time step wraps around into the nodata values (-128, -127)
+    k = np.arange(n).reshape(shape)
+    if np.dtype(dtype) == np.dtype("int8"):
+        k = k % 25
+    base = (k * 2 + 1).astype(dtype)
     if ntime == 0:
         return base
     return np.stack([base + np.dtype(dtype).type(40 * t) for t in range(ntime)])
